@@ -419,8 +419,25 @@ def run(ctx):
                 if r.get("k") != "Path" or r.get("res") != "local":
                     continue
                 init = peel(lets.get((r.get("name"), r.get("id"))) or {})
+                # `let in_use = &mut map[..n]; in_use.sort_by_key(..)`: a view of the map — look at the map's own initialiser
+                for _ in range(3):
+                    v_ = init
+                    while v_.get("k") in ("Index", "AddrOf", "Unary", "MethodCall") and isinstance(v_.get("e") or v_.get("recv"), dict):
+                        v_ = peel(v_.get("e") or v_.get("recv"))
+                    if v_ is not init and v_.get("k") == "Path" and v_.get("res") == "local" and (v_.get("name"), v_.get("id")) in lets:
+                        init = peel(lets[(v_.get("name"), v_.get("id"))])
+                    else:
+                        break
                 if not init:
                     continue
+                if init.get("k") == "Path" and init.get("res") == "def" and str(init.get("dk", "")).startswith("Const"):
+                    # a named constant (`const IDENTITY_SORT_MAP: [u8; 8] = [0, 1, ..]`): its body
+                    cf_ = (getattr(m, "raw_by_path", None) or m.by_path).get(init.get("path"))
+                    hb_ = cf_.j.get("hir") if cf_ is not None else None
+                    while isinstance(hb_, dict) and hb_.get("k") == "Block" and not hb_.get("stmts") and isinstance(hb_.get("expr"), dict):
+                        hb_ = hb_["expr"]
+                    if isinstance(hb_, dict):
+                        init = peel(hb_)
                 nsort += 1
                 ident = False
                 if init.get("k") == "Array":
